@@ -12,6 +12,66 @@ import (
 func init() {
 	reg("C20_MergeOutputAccounts", C20_MergeOutputAccounts)
 	reg("C20_MergeTwiceDoesNotMutateSource", C20_MergeTwiceDoesNotMutateSource)
+	reg("C20_MergeStorageUpdates", C20_MergeStorageUpdates)
+}
+
+// updatesOver is a storage-update map over the shared two-key universe: nil map, empty map, {k0},
+// {k1}, {k0,k1}; the data of an update is empty (the form in which a deletion is recorded) or
+// one arbitrary byte.
+func updatesOver(tag string) map[string]*vmcommon.StorageUpdate {
+	var m map[string]*vmcommon.StorageUpdate
+	c := verif.Choose(tag+".updates", 5)
+	if c >= 1 {
+		m = map[string]*vmcommon.StorageUpdate{}
+	}
+	if c == 2 || c == 4 {
+		m["k0"] = &vmcommon.StorageUpdate{Offset: []byte("k0"), Data: verif.BytesLen(tag+".upd0.data", 0, 1)}
+	}
+	if c == 3 || c == 4 {
+		m["k1"] = &vmcommon.StorageUpdate{Offset: []byte("k1"), Data: verif.BytesLen(tag+".upd1.data", 0, 1)}
+	}
+	return m
+}
+
+// C20_MergeStorageUpdates: merging storage updates lets the later update win for every key it
+// names - also when the later update records a deletion (empty data) - keeps the earlier update
+// of every other key, adds no key, and does so through MergeOutputAccounts and through
+// MergeStorageUpdates alike.
+func C20_MergeStorageUpdates() {
+	left := &vmcommon.OutputAccount{StorageUpdates: updatesOver("l")}
+	right := &vmcommon.OutputAccount{StorageUpdates: updatesOver("r")}
+	var pre0, pre1 *vmcommon.StorageUpdate
+	if left.StorageUpdates != nil {
+		pre0, pre1 = left.StorageUpdates["k0"], left.StorageUpdates["k1"]
+	}
+	if verif.Bool("whole-account-merge") {
+		left.MergeOutputAccounts(right)
+	} else {
+		left.MergeStorageUpdates(right)
+	}
+	verif.Assert("map-present", left.StorageUpdates != nil)
+	n := 0
+	for _, pair := range []struct {
+		k   string
+		pre *vmcommon.StorageUpdate
+	}{{"k0", pre0}, {"k1", pre1}} {
+		var r *vmcommon.StorageUpdate
+		if right.StorageUpdates != nil {
+			r = right.StorageUpdates[pair.k]
+		}
+		got := left.StorageUpdates[pair.k]
+		if r != nil {
+			verif.Assert("later-update-wins", got == r)
+			verif.Reach("later-deletion-over-earlier-value", len(r.Data) == 0 && pair.pre != nil && len(pair.pre.Data) == 1)
+		} else {
+			verif.Assert("earlier-update-kept", got == pair.pre)
+		}
+		if got != nil {
+			n++
+		}
+	}
+	verif.Assert("no-key-added", len(left.StorageUpdates) == n)
+	verif.Reach("merged", true)
 }
 
 // arbAccount is an arbitrary output account over the generated domain: nil / negative
